@@ -85,7 +85,7 @@ func TestVerif_C11(t *testing.T) {
 		small = []int{0, 1, 2, 3, 4, 5, 8, 16, 33, 64}
 	}
 	nBig, nDirected := r.Pick(3, 14), r.Pick(60, 160)
-	r.SetRule(fmt.Sprintf("shard with and without write-cache: payload lengths %v with every request of the four modes (values 0..len+2) plus huge values, %d larger payloads with %d boundary-directed requests each; objects put through Shard.Put (also >128 KiB objects that become plain files) or planted as zstd / combined files in the blob storage; Shard.GetRangeStream, ReadRange, ReadPayloadRange, ReadObject, GetRangeStreamWithMetadataLookup with/without metabase lookup and header interception; undefined requests must get the blob storage's answer; distinct = (write-cache on/off, api, format, length class, mode, request shape)", small, nBig, nDirected))
+	r.SetRule(fmt.Sprintf("shard with and without write-cache: payload lengths %v with every request of the four modes (values 0..len+2) plus huge values, %d larger payloads with %d boundary-directed requests each; objects put through Shard.Put (also >128 KiB objects that become plain files) or planted as zstd / combined files in the blob storage; Shard.GetRangeStream, ReadRange, ReadPayloadRange, ReadObject, GetRangeStreamWithMetadataLookup with/without metabase lookup and header interception; undefined requests must get the blob storage's answer; then batches of 2..8 range reads with overlapping answer lifetimes (seeded schedule of issue / read chunk / abandon / close) and rounds of concurrent reads, judged by the same resolver; distinct = (write-cache on/off, api, format, length class, mode, request shape)", small, nBig, nDirected))
 	cnr, owner := verifkit.RandCID(r.Rand("ids", 0)), verifkit.RandUser(r.Rand("ids", 1))
 	k := 0
 	for _, wcOn := range []bool{false, true} {
@@ -231,6 +231,63 @@ func TestVerif_C11(t *testing.T) {
 				}
 			}
 		}
+		// answers with overlapping lifetimes and concurrent requests (see vf11.Overlapped)
+		vf11.OverlapPhase(r, layer, 0, r.Pick(50, 300), r.Pick(2, 8), func(rng *rand.Rand) vf11.Call {
+			it := items[rng.IntN(len(items))]
+			if rng.IntN(2) == 0 { // larger payloads half of the time
+				it = items[len(items)-1-rng.IntN(3*nBig)]
+			}
+			o := it.o
+			req := vf11.RandReq(rng, o)
+			withHook := rng.IntN(2) == 0
+			skipMeta := it.planted || rng.IntN(2) == 0
+			var hook func([]byte) error
+			if withHook {
+				var calls int
+				hook = vf11.Intercept(&calls)
+			}
+			cl := vf11.Call{Layer: layer, O: o, Req: req}
+			api := rng.IntN(5)
+			if api >= 3 && req.Mode != common.PayloadRangeModeOffsetLength {
+				api -= 3
+			}
+			switch api {
+			case 0:
+				cl.API = "GetRangeStream"
+				cl.Open = func() (io.ReadCloser, func() []byte, error) {
+					_, _, stream, err := sh.GetRangeStream(o.Addr.Container(), o.Addr.Object(), req.Range(), withHook)
+					return stream, nil, err
+				}
+			case 1:
+				cl.API = "GetRangeStreamWithMetadataLookup"
+				cl.Open = func() (io.ReadCloser, func() []byte, error) {
+					_, stream, err := sh.GetRangeStreamWithMetadataLookup(o.Addr, req.Range(), withHook, skipMeta)
+					return stream, nil, err
+				}
+			case 2:
+				cl.API = "ReadObject"
+				cl.Open = func() (io.ReadCloser, func() []byte, error) {
+					buf := make([]byte, 2*vf11.NPFBL)
+					n, stream, err := sh.ReadObject(o.Addr, skipMeta, req.Range(), buf, hook)
+					return vf11.PartsOpen(req, buf, n, stream, err)
+				}
+			case 3:
+				cl.API = "ReadRange"
+				cl.Open = func() (io.ReadCloser, func() []byte, error) {
+					var stream io.ReadCloser
+					stream, err := sh.ReadRange(o.Addr.Container(), o.Addr.Object(), req.A, req.B, make([]byte, 2*vf11.NPFBL), hook)
+					return stream, nil, err
+				}
+			default:
+				cl.API = "ReadPayloadRange"
+				cl.Open = func() (io.ReadCloser, func() []byte, error) {
+					var stream io.ReadCloser
+					stream, err := sh.ReadPayloadRange(o.Addr, req.A, req.B, skipMeta, make([]byte, 2*vf11.NPFBL))
+					return stream, nil, err
+				}
+			}
+			return cl
+		})
 		if wcOn {
 			inWC := 0
 			for _, it := range items {
